@@ -3,6 +3,5 @@ CONSTANT Strict = TRUE
 CONSTANT Judge = "C17"
 CONSTANT MaxDepth = 40
 CONSTANT AsBuiltRemove = FALSE
-INVARIANT TStackOk
 POSTCONDITION Accepted
 CHECK_DEADLOCK FALSE
